@@ -21,6 +21,7 @@ import (
 	"sort"
 	"strconv"
 	"strings"
+	"unicode"
 
 	"golang.org/x/exp/maps"
 	"seehuhn.de/go/sfnt"
@@ -348,8 +349,15 @@ func newExplainer(fontInfo *sfnt.Font) *explainer {
 	mappings := make([]string, fontInfo.NumGlyphs())
 	if cmap, _ := fontInfo.CMapTable.GetBest(); cmap != nil {
 		a, b := cmap.CodeRange()
+		if b > unicode.MaxRune {
+			b = unicode.MaxRune
+		}
 		for r := a; r <= b; r++ {
 			gid := cmap.Lookup(r)
+			if int(gid) >= len(mappings) {
+				// The cmap refers to a glyph which the font does not have.
+				continue
+			}
 			if gid != 0 && (strconv.IsPrint(r) || r == '\n' || r == '\r' || r == '\t') {
 				// Other runes are written as escape sequences by %q, which
 				// the parser does not understand.
